@@ -26,7 +26,7 @@ REQUIRED_FEATURES = ["op:create-a", "op:create-w", "op:recreate-occupied", "op:c
                      "op:ln-hard", "op:ln-soft", "op:ln-external", "op:cp-onto-occupied", "op:cp-overwrite",
                      "via:cli", "via:api", "uri:no-leading-slash", "is_cooler:missing-group", "is_cooler:missing-file",
                      "is_cooler:non-hdf5", "is_cooler:dataset-path", "op:cp-to-root", "op:mv-onto-occupied",
-                     "op:ln-onto-occupied", "op:mv-spelling", "op:samefile-overwrite", "is_cooler:dangling-link",
+                     "op:ln-onto-occupied", "op:mv-spelling", "op:samefile-overwrite", "is_cooler:dangling-link", "op:mv-cross-file",
                      "layout:second-file-behind-symlinked-directory"]
 
 PATHS = ["/a", "/b", "/g/x", "/g/y", "/h", "/k/deep/z", "/a_old", "/g/x2"]      # incl. names that extend another name
@@ -150,7 +150,7 @@ def one_history(ctx, cid, rng):
             c.feature("layout:second-file-behind-symlinked-directory")
         for step in range(nsteps + 2):
             op = ["create", "create", "cp", "mv", "ln", "lns", "ext", "recreate", "cp_occupied", "cp_overwrite", "create_w",
-                  "cp_root", "mv_occupied", "ln_occupied", "mv_spelling", "samefile_overwrite"][int(rng.integers(16))] \
+                  "cp_root", "mv_occupied", "ln_occupied", "mv_spelling", "samefile_overwrite", "mv_cross"][int(rng.integers(17))] \
                 if step >= 2 else "create"
             f = files[int(rng.integers(2))] if step >= 2 else files[step]
             via = "cli" if rng.random() < 0.35 else "api"
@@ -317,6 +317,8 @@ def one_history(ctx, cid, rng):
                             os.symlink(sf, alt)
                         du = alt + "::" + dp
                     raised = None
+                    with h5py.File(sf, "r") as h_:
+                        addr_before = h5py.h5o.get_info(h_[sp].id).addr
                     try:
                         if via == "cli":
                             r = runner.invoke(cli, ["mv", su, du] if op == "mv_spelling" else ["cp", "-w", su, du])
@@ -332,9 +334,52 @@ def one_history(ctx, cid, rng):
                     c.feature(f"op:{op.replace('_', '-')}", f"op:{op.replace('_', '-')}:{'refused' if raised else 'answered'}")
                     if raised is None:
                         if op == "mv_spelling":
-                            M.names[sf][dp] = M.names[sf].pop(sp)          # answered: then it is a move
+                            # answered: then it is a move - by renaming the link (the object keeps its identity, other
+                            # hard-link names still share it) or by copy-then-delete (a new object); observed, not assumed
+                            with h5py.File(sf, "r") as h_:
+                                same = dp in h_ and h5py.h5o.get_info(h_[dp].id).addr == addr_before
+                            if same:
+                                M.names[sf][dp] = M.names[sf].pop(sp)
+                            else:
+                                content = M.content[M.resolve(sf, sp)]
+                                M.names[sf].pop(sp)
+                                M.names[sf][dp] = ("obj", M.new_obj(content))
                         else:
                             M.names[sf][dp] = ("obj", M.new_obj(M.content[M.resolve(sf, sp)]))   # answered: then a copy
+                        changed = True
+                elif op == "mv_cross":
+                    # a move to the OTHER file: the destination reads as the source did and the source name is gone
+                    # (F32: it used to be a silent copy).  A refusal that changes nothing is tolerated.
+                    cands = [(ff, p) for ff, p in srcs if (ff, p) not in M.link_targets() or step % 2]
+                    if not cands:
+                        continue
+                    sf, sp = cands[int(rng.integers(len(cands)))]
+                    df_ = [x for x in files if x != sf][0]
+                    dp = PATHS[int(rng.integers(len(PATHS)))]
+                    if M.occupied(df_, dp):
+                        continue
+                    su, du = uri(rng, sf, sp, c), uri(rng, df_, dp, c)
+                    rec.update(src=rel(su), dst=rel(du))
+                    raised = None
+                    try:
+                        if via == "cli":
+                            r = runner.invoke(cli, ["mv", su, du])
+                            if r.exit_code != 0:
+                                raised = type(r.exception).__name__
+                        else:
+                            fileops.mv(su, du)
+                    except Exception as e:  # noqa
+                        raised = type(e).__name__
+                    rec["raised"] = raised
+                    c.feature("op:mv-cross-file" + (":refused" if raised else ""))
+                    if raised is None:
+                        content = M.content[M.resolve(sf, sp)]
+                        M.names[sf].pop(sp)
+                        M.exists[df_] = True
+                        M.names[df_][dp] = ("obj", M.new_obj(content))
+                        if not M.foreign[df_]:
+                            add_foreign(df_)
+                            M.foreign[df_] = foreign_state(df_)
                         changed = True
                 elif op == "mv":
                     # (moving the target of a soft / external link leaves that link dangling: a name that resolves
